@@ -334,10 +334,89 @@ def c_exhaustive(ctx):
     source_immutable(ctx, mod)
 
 
+def source_isolation(ctx, mod):
+    """The expanders edit their input in place (refs, arguments, return_var_name, ...).  That is sound only if the elements they are given are
+    owned by one runtime: every FlowConfig built from the flows of the shared RailsConfig must receive a copy.  -> (isolated, in-place stores)"""
+    rt = ctx.tree.ast(RT2)
+    # in-place stores of the expanders into (parts of) their parameters
+    inplace = []
+    for fn in functions(mod):
+        params = {a.arg for a in fn.args.args}
+        derived = set(params)
+        for n in walk_no_nested(fn):   # loop variables over parameters' contents
+            if isinstance(n, (ast.For, ast.comprehension)):
+                b = n.iter
+                while isinstance(b, (ast.Attribute, ast.Subscript, ast.Call)):
+                    b = b.func if isinstance(b, ast.Call) and not b.args else (b.args[0] if isinstance(b, ast.Call) else b.value)
+                if isinstance(b, ast.Name) and b.id in derived:
+                    for t in ast.walk(n.target):
+                        if isinstance(t, ast.Name):
+                            derived.add(t.id)
+        for n in walk_no_nested(fn):
+            tg = n.targets if isinstance(n, ast.Assign) else [n.target] if isinstance(n, ast.AugAssign) else []
+            for t in tg:
+                if isinstance(t, (ast.Attribute, ast.Subscript)):
+                    b = t.value
+                    while isinstance(b, (ast.Attribute, ast.Subscript)):
+                        b = b.value
+                    if isinstance(b, ast.Name) and b.id in params:
+                        inplace.append((fn.name, n.lineno, first_line(n)))
+            if isinstance(n, ast.Call) and isinstance(n.func, ast.Attribute) and n.func.attr in ("update", "append", "pop", "clear", "extend", "insert", "setdefault"):
+                b = n.func.value
+                depth = 0
+                while isinstance(b, (ast.Attribute, ast.Subscript)):
+                    b = b.value
+                    depth += 1
+                if depth and isinstance(b, ast.Name) and b.id in params:
+                    inplace.append((fn.name, n.lineno, first_line(n)))
+    sites = []
+    for fn in functions(rt):
+        for c in [c for c in walk_no_nested(fn) if isinstance(c, ast.Call) and src(c.func) == "FlowConfig"]:
+            el = [k.value for k in c.keywords if k.arg == "elements"]
+            if not el:
+                continue
+            sites.append((fn, c, el[0]))
+    ctx.floor("C12.a.source-isolated", RT2, "FlowConfig constructions", len(sites), 2)
+    isolated = True
+    for fn, c, e in sites:
+        how = None
+        if isinstance(e, ast.Call) and src(e.func) in ("copy.deepcopy", "deepcopy"):
+            how = "a deep copy of the parsed elements"
+        else:
+            # fresh parse in the same function?
+            names = {x.id for x in ast.walk(e) if isinstance(x, ast.Name)}
+            params = {a.arg for a in fn.args.args} | {a.arg for a in fn.args.kwonlyargs}
+            fresh_vars = set()
+            for n in walk_no_nested(fn):
+                if isinstance(n, ast.Assign) and isinstance(n.value, ast.Call) and src(n.value.func) == "parse_colang_file":
+                    fresh_vars |= {t.id for t in n.targets if isinstance(t, ast.Name)}
+            loop_src = {}
+            for n in walk_no_nested(fn):
+                if isinstance(n, ast.For) and isinstance(n.target, ast.Name):
+                    b = n.iter
+                    while isinstance(b, (ast.Attribute, ast.Subscript)):
+                        b = b.value
+                    if isinstance(b, ast.Name):
+                        loop_src[n.target.id] = b.id
+            roots = {loop_src.get(x, x) for x in names}
+            if roots & fresh_vars and not (roots & params - {"state"}):
+                how = "parsed inside this function (owned by this call)"
+        if how is None:
+            isolated = False
+        ok = how is not None or not inplace
+        ctx.check("C12.a.source-isolated", RT2, qualname_of(fn), "FlowConfig(elements=%s)" % src(e)[:60], ok,
+                  "the flow config receives %s; the expanders' %d in-place edits cannot reach the shared RailsConfig" % (how, len(inplace)) if how else
+                  "the flow config shares the parsed elements with RailsConfig.flows while the expanders edit them in place (%d sites, e.g. %s): a second runtime built from the same "
+                  "configuration rewrites the first one's compiled flows (stale labels, refs and instance-uid variables)" % (len(inplace), "; ".join("%s:%d" % (a, b) for a, b, _ in inplace[:3])),
+                  line=c.lineno)
+    return isolated, inplace
+
+
 def source_immutable(ctx, mod):
     """Labels are fresh per compilation (new uuid on every expansion), while the parsed elements are shared with RailsConfig.flows and
     compiled again by every runtime built from the configuration.  A label written INTO a parsed element survives into the next
     compilation, where no Label of that name is emitted: the jump target does not exist (F23)."""
+    isolated, inplace = source_isolation(ctx, mod)
     n_fn = 0
     for fn in functions(mod):
         n_fn += 1
@@ -354,9 +433,11 @@ def source_immutable(ctx, mod):
                     base = t.value
                     while isinstance(base, (ast.Attribute, ast.Subscript)):
                         base = base.value
-                    ok = isinstance(base, ast.Name) and base.id in local_new
+                    local = isinstance(base, ast.Name) and base.id in local_new
+                    ok = local or isolated
                     ctx.check("C12.a.source-immutable", EXP, fn.name, first_line(n), ok,
-                              "the label is written into an element this function created" if ok else
+                              ("the label is written into an element this function created" if local else
+                               "the label is written into an input element, but every runtime compiles its own copy of the parsed flows (C12.a.source-isolated)") if ok else
                               "a per-compilation label is written into a parsed element: the source AST is shared with RailsConfig.flows, so the next compilation "
                               "(a second LLMRails from the same config) keeps this stale label and the jump target does not exist there", line=n.lineno)
     ctx.check("C12.a.source-immutable", EXP, "<module>", "label stores analysed", n_fn >= 15,
